@@ -1,0 +1,16 @@
+//go:build verif
+
+package index
+
+import "github.com/lindb/lindb/series/metric"
+
+// Verification seam for property C09 (name -> id assignment): the per-metric sequence cache of
+// metricIndexDatabase is an expirable LRU (100000 entries, one hour). Eviction by capacity and expiry
+// by time cannot be reached by a short run, so the harness removes an entry by hand — exactly what the
+// LRU does on its own — and the next createSeriesID of that metric takes the miss branch
+// (metricInverted.getSeriesIDs: kv family, mutable and immutable postings). Nothing else changes.
+
+// VerifEvictSeriesSequence removes metricID's entry from db's sequence cache; reports whether there was one.
+func VerifEvictSeriesSequence(db MetricIndexDatabase, metricID metric.ID) bool {
+	return db.(*metricIndexDatabase).sequenceCache.Remove(metricID)
+}
